@@ -14,10 +14,19 @@ BOUNDS = {
     "bounded_chunked_write_matches_whole": "24 chunkings, contents up to 12 MiB, chunk sizes {0,1,7,4095..8193,64Ki,1Mi,2Mi,4Mi,5Mi,8Mi} incl. round sizes in one call",
     "bounded_discover_segments_numeric_order": "11 segment ids incl. 9/10, 99/100, u64::MAX in shuffled creation order + 6 non-segment names",
     "bounded_bulk_delete_reclaims_every_blob": "batches of {1,2,3,5,255,256,257,258,259} distinct blobs",
-    "bounded_overlapping_readers_stream_whole_blob": "one blob of 64 KiB + 123 bytes, three overlapping readers + range reads",
+    "bounded_overlapping_readers_stream_whole_blob": "one blob of 64 KiB + 123 bytes, three overlapping readers + range reads; BufRead consumers on 13 blob sizes 0..8193",
     "bounded_transactions_are_independent": "abandoned transaction before a put; two interleaved transactions; empty blob",
     "bounded_reopen_with_undecodable_snapshot_key": "one snapshot with a non-UTF-8 byte-string key reopened with String keys",
     "bounded_dirlock_held_through_operations": "one store; second open attempted after 6 kinds of activity while a handle is alive",
+    "bounded_key_bytes_integers": "exhaustive u8/i8/u16/i16; 20,000 values incl. boundaries for u32..i128 and [u8;16], [u8;32]",
+    "bounded_cleanup_removes_non_regular_strays": "one store with a stray socket, a stray symlink to a directory and a stray regular file",
+    "bounded_scan_exact_for_large_index": "2,060 keys with distinct contents; 12 blob files removed at positions around 512/1024/2048",
+    "bounded_cas_files_named_after_their_bytes_on_shard_boundaries": "5 blobs on neighbouring shard boundaries found by brute force",
+    "bounded_single_io_fault_is_contained": "5 single faults (WAL append after a mid-segment reopen; snapshot write with / without an earlier snapshot / on a brand-new store; staging write), EFBIG via RLIMIT_FSIZE in a child process",
+    "bounded_cleanup_of_staging_leftover_alone": "one store whose only garbage is one staging file of a crashed transaction",
+    "bounded_settings_version_gate": "11 foreign or malformed stored version values incl. 2^32+v and 2^64-1",
+    "bounded_failed_rollover_leaves_well_formed_log": "N=4; two failed rollovers, heal, two puts, restart; independent decoder after each phase",
+    "bounded_every_call_returns_on_segment_boundaries": "one thread, N=2, 60 operations of 5 kinds on segment boundaries, watchdog 120 s",
     "bounded_blob_hash_eq_is_bytewise": "64 random hashes x 32 single-byte difference positions",
 }
 
